@@ -121,3 +121,20 @@ Definition empty_file : sfile := mkS [] 0.
 
 Definition sparse_result (chunks : list (list N)) : list N := s_data (s_run (sparse_ops chunks 0) empty_file).
 Definition plain_result (chunks : list (list N)) : list N := s_data (s_run (plain_ops chunks) empty_file).
+
+(* ---- which writer is used: prefs->sparseFileSupport (0: never, 1: automatic, 2: forced) ----
+   zstdcli.c: default ZSTD_SPARSE_DEFAULT (1), --sparse => 2, --no-sparse => 0, compression => 0 (whatever was asked);
+   FIO_openDstFile, for every destination it opens: stdout turns 1 into 0; for a file, 1 stays 1 only if the
+   destination name denoted a regular file before it was opened (isDstRegFile, taken before the -f unlink), else 0;
+   0 and 2 are never changed (so "automatic" is lost for the rest of the run once a destination did not pre-exist). *)
+Inductive sparse_arg := SpDefault | SpForce | SpNever.
+
+Definition sparse_init (compress : bool) (a : sparse_arg) : N :=
+  if compress then 0 else match a with SpDefault => 1 | SpForce => 2 | SpNever => 0 end.
+
+Definition sparse_open (v : N) (to_stdout dst_reg : bool) : N :=
+  if v =? 1 then (if to_stdout then 0 else if dst_reg then 1 else 0) else v.
+
+(* the seek / write calls made for a whole destination under setting v *)
+Definition dst_writer_ops (v : N) (frames : list (list (list N))) : list sop :=
+  if v =? 0 then concat (map plain_ops frames) else sparse_frames_ops frames.
